@@ -77,6 +77,8 @@ impl Path {
                     let start = cur_pt.unwrap_or(cpt);
                     if cur_pt.is_none() {
                         start_pt = Some(cpt);
+                        // the curve begins the subpath so its start has to be emitted as well
+                        flattened.ops.push(PathOp::LineTo(cpt));
                     }
                     let c = QuadraticBezierSegment {
                         from: start,
@@ -92,6 +94,8 @@ impl Path {
                     let start = cur_pt.unwrap_or(cpt1);
                     if cur_pt.is_none() {
                         start_pt = Some(cpt1);
+                        // the curve begins the subpath so its start has to be emitted as well
+                        flattened.ops.push(PathOp::LineTo(cpt1));
                     }
                     let c = CubicBezierSegment {
                         from: start,
